@@ -144,27 +144,30 @@ Print Assumptions c17_resp_crlf_refuted.
    writeFoot / writeFilled, transcribed as render_json / render_resp over one abstract result (ids,
    objects and field values as printed values, field-name list, distances, count, cursor), are
    projected by a client onto the same abstract reply: ids, objects, non-zero fields, distances,
-   cursor (count for COUNT).  Hypothesis wf_res: the name list has no duplicates, every
-   object's field list is a sub-list of it (field.List and the fkeys B-tree set are both in byte
-   order of the names), and (PARTIAL, see c17_scan_json_path_field_refuted below) no listed name is
-   answered through a JSON path inside another field of the same object. *)
+   cursor (count for COUNT).  Hypothesis wf_res: the name list has no duplicates and is in byte
+   order, and every object's field list is a sub-list of it (field.List and the fkeys B-tree set are
+   both in byte order of the names; the repaired JSON arm scans the object's list up to the first
+   larger name). *)
 Theorem c17_modes_agree : forall r, wf_res r ->
   proj_json (sr_out r) (render_json r) = Some (abs_of r) /\
   proj_resp (sr_out r) (render_resp r) = Some (abs_of r).
 Proof. exact modes_agree_proof. Qed.
 Print Assumptions c17_modes_agree.
 
-(* Open finding C17-scan-json-path-field: without the last conjunct of wf_res the two modes do NOT
-   convey the same fields.  The JSON arm of writeFilled fills the positional "fields" array with
-   Fields().Get(name), which resolves a dotted name inside a JSON-valued field; the RESP arm lists
-   the stored fields.  Witness (reproduced on the real server): SET fleet b FIELD props.speed 5
-   POINT 1 1; SET fleet truck1 FIELD props {"speed":7} POINT 2 2; SCAN fleet OBJECTS. *)
-Theorem c17_scan_json_path_field_refuted :
-  wf_names json_path_result /\
-  proj_json (sr_out json_path_result) (render_json json_path_result) <>
+(* Finding C17-scan-json-path-field (repaired in /repo: 903e555).  The pinned JSON arm of writeFilled
+   filled the positional "fields" array with Fields().Get(name), which resolves a dotted name inside
+   a JSON-valued field; the RESP arm lists the stored fields.  On the well-formed result of SET fleet b
+   FIELD props.speed 5 POINT 1 1; SET fleet truck1 FIELD props {"speed":7} POINT 2 2; SCAN fleet OBJECTS
+   the pinned JSON rendering (json_item_pinned) and the RESP rendering convey different fields, the
+   repaired rendering (exact stored name) agrees. *)
+Theorem c17_scan_json_path_field_pinned_refuted :
+  wf_res json_path_result /\
+  proj_json (sr_out json_path_result) (render_json_pinned json_path_result) <>
+  proj_resp (sr_out json_path_result) (render_resp json_path_result) /\
+  proj_json (sr_out json_path_result) (render_json json_path_result) =
   proj_resp (sr_out json_path_result) (render_resp json_path_result).
-Proof. exact json_path_field_refuted. Qed.
-Print Assumptions c17_scan_json_path_field_refuted.
+Proof. exact json_path_field_pinned_refuted. Qed.
+Print Assumptions c17_scan_json_path_field_pinned_refuted.
 
 (* the distance-0 case, explicitly: NEARBY .. DISTANCE of an object at the query point prints
    "distance":0 / the bulk 0 (opts.distOutput makes the test true although dist > 0 is false) *)
